@@ -256,8 +256,23 @@ func (g *Gen) inputRaw(n *Node) IVal {
 				if t, ok := f.Tags["json"]; ok {
 					key = t // a plain map knows nothing about json tags: absent
 				}
+			case c < 14:
+				key = caseVariant(key, c) // keys are matched exactly: a key that differs in case is another key
+			case c < 17:
+				// two look-alikes with their own values and no exact key: absent, whatever the map's order
+				if a, b := caseVariant(key, 0), caseVariant(key, 1); a != b && a != key && b != key {
+					v.M = append(v.M, IKV{K: a, V: g.Input(f.Node)})
+					key = b
+				}
 			}
 			v.M = append(v.M, IKV{K: key, V: g.Input(f.Node)})
+			if c >= 17 && c < 22 && caseVariant(key, c) != key {
+				// the exact key and look-alikes of it side by side
+				v.M = append(v.M, IKV{K: caseVariant(key, c), V: g.Input(f.Node)})
+				if c < 19 {
+					v.M = append(v.M, IKV{K: caseVariant(key, c+1), V: g.Input(f.Node)})
+				}
+			}
 		}
 		if r.P(10) {
 			v.M = append(v.M, IKV{K: "unknown_key", V: strV("ignored")})
@@ -265,6 +280,24 @@ func (g *Gen) inputRaw(n *Node) IVal {
 		return v
 	}
 	panic("Input " + n.Kind)
+}
+
+// caseVariant: the key with the case of its first letter flipped, or entirely in upper case.
+func caseVariant(k string, how int) string {
+	if k == "" {
+		return k
+	}
+	if how%2 == 0 {
+		return asciiUpper(k)
+	}
+	b := []byte(k)
+	switch {
+	case b[0] >= 'a' && b[0] <= 'z':
+		b[0] -= 32
+	case b[0] >= 'A' && b[0] <= 'Z':
+		b[0] += 32
+	}
+	return string(b)
 }
 
 func (g *Gen) wrong() IVal {
